@@ -22,6 +22,14 @@ fn v(prop: &'static str, clause: &'static str, detail: String) -> Viol {
 /// its original span. `expected` = token discriminants of the input.
 pub fn c01_lossless(obs: &Obs, expected: &[u16]) -> Vec<Viol> {
     let mut out = vec![];
+    if let Some(p) = &obs.walk_panic {
+        out.push(v(
+            "C01",
+            "tree-walk-panics",
+            format!("walking the returned tree through Cst::children/get/span panicked: {p}"),
+        ));
+        return out;
+    }
     let leaves: Vec<&ApiNode> = obs.api.iter().filter(|n| !n.is_rule).collect();
     if leaves.len() != expected.len() {
         out.push(v(
@@ -72,6 +80,10 @@ pub fn c01_lossless(obs: &Obs, expected: &[u16]) -> Vec<Viol> {
 /// nesting and order, trivia edges, complete announced nodes.
 pub fn c02_wellformed(obs: &Obs, is_skipped: &dyn Fn(u16) -> bool) -> Vec<Viol> {
     let mut out = vec![];
+    if obs.walk_panic.is_some() && tree::build(&obs.nodes).is_ok() {
+        // the raw vector is a tree but the API cannot walk it: C01 reports the walk, nothing to add here
+        return out;
+    }
     let t = match tree::build(&obs.nodes) {
         Ok(t) => t,
         Err(e) => {
